@@ -3,6 +3,7 @@ package main
 import (
 	"encoding/base64"
 	"fmt"
+	"slices"
 	"strings"
 
 	"verif/harness/internal/gen"
@@ -116,6 +117,9 @@ func (w *world) checkRecord(t *truth, rec map[string]any) {
 		rep.class("record.stream." + t.Phase)
 	}
 	rep.class("status." + str(rec, "status"))
+	if t.OddID {
+		rep.class("request_id.odd-characters-verbatim." + tag)
+	}
 	rep.class("call." + t.Class)
 
 	// --- describes the call
@@ -255,6 +259,9 @@ func (w *world) checkRecord(t *truth, rec map[string]any) {
 						bad("claims:raw-sensitive-value", "claim %q matches the redaction policy by name, the record carries its raw value %s", k, canonJSON(lv))
 					} else if ok {
 						rep.class("claims.sensitive-redacted")
+						if !slices.Contains(sensKeys, k) {
+							rep.class("claims.generated-key-redacted")
+						}
 						if _, nested := sent[k].(map[string]any); nested {
 							rep.class("claims.sensitive-nested-value-redacted")
 						}
